@@ -89,7 +89,7 @@ void h_ex_exec(void)
 	excmds[1].abbr = ""; excmds[1].name = ""; excmds[1].ec = ec_stub;
 	int r = ex_exec(XI.ln);
 	if (g_sl >= EXLEN)
-		__CPROVER_assert(r == 1 && XE.ecs == 0 && XE.shows == 1, "ex_exec: a line of EXLEN bytes or more is refused with a message, nothing is tokenized or executed");
+		H_ASSERT(r == 1 && XE.ecs == 0 && XE.shows == 1, "ex_exec: a line of EXLEN bytes or more is refused with a message, nothing is tokenized or executed");
 #ifdef CANARY
 	__CPROVER_assert(0, "canary");
 #endif
